@@ -110,6 +110,25 @@ theorem contract_sameJunctions {t t' : HTree} (h : Tree t) {i tg src : Nat} (hj 
     subst this
     exact ⟨n', hn', hid, hk.junction⟩
 
+/-- the same through the attribute copy of fix 6964517 -/
+theorem prep_sameJunctions {t t1 t2 : HTree} (hp : PrepSpec t t1) (ht : Tree t) {i tg src : Nat}
+    (hj : JoinsId t i tg src) (hfree : ∀ n ∈ t.nodes, n.id = src → n.junction = none)
+    (hc : contract t1 i tg src = some t2) : SameJunctions t t2 src := by
+  have hs1 : SameJunctions t1 t2 src := contract_sameJunctions (hp.tree ht) (hp.joinsId hj)
+    (fun n1 hn1 hid => by
+      obtain ⟨n, hn, hid', _, hjn, _⟩ := hp.back n1 hn1
+      rw [← hjn]
+      exact hfree n hn (hid'.trans hid)) hc
+  refine ⟨?_, ?_, hfree⟩
+  · intro n' hn'
+    obtain ⟨n1, hn1, hid1, hj1⟩ := hs1.back n' hn'
+    obtain ⟨n, hn, hid, _, hjn, _⟩ := hp.back n1 hn1
+    exact ⟨n, hn, hid.trans hid1, hjn.trans hj1⟩
+  · intro n hn hne
+    obtain ⟨n1, hn1, hid1, _, hj1, _⟩ := hp.fwd n hn
+    obtain ⟨n', hn', hid', hj'⟩ := hs1.fwd n1 hn1 (by rw [hid1]; exact hne)
+    exact ⟨n', hn', hid'.trans hid1, hj'.trans hj1⟩
+
 /-- what one step does to the bookkeeping: consistent again; a junction is carried or reported deleted
     after the step iff it was before; the list of new junctions is untouched -/
 theorem rzleStep_jinv {s s2 : Imp} (ht : Tree s.t) (hi : JInv s) (h : RzleStep s s2) :
@@ -132,7 +151,7 @@ theorem rzleStep_jinv {s s2 : Imp} (ht : Tree s.t) (hi : JInv s) (h : RzleStep s
               (∀ j, (Carried t2 j ∨ j ∈ s1.delJ) ↔ (Carried s.t j ∨ j ∈ s.delJ)) ∧ s1.newJ = s.newJ := by
           intro srcN hsrcN hnone hid hs1
           subst hs1
-          have hsj : SameJunctions s1.t t2 src := contract_sameJunctions ht1 hj1
+          have hsj : SameJunctions s1.t t2 src := prep_sameJunctions (rzlePrep_spec _ _ _ _) ht1 hj1
             (fun n hn hnid => by
               have : n = srcN := ht.1.node_eq hn hsrcN (hnid.trans hid.symm)
               rw [this]; exact hnone) hc
@@ -237,7 +256,7 @@ theorem rzleStep_jinv {s s2 : Imp} (ht : Tree s.t) (hi : JInv s) (h : RzleStep s
                 · exact hi.deleted j hj this.1
                 · exact this.2 hj
             have hsj : SameJunctions ((s.t.modNode on.id (fun x => { x with junction := none })).modEdge e.id
-                (fun x => { x with conn := none })) t2 on.id := contract_sameJunctions ht1 hj1
+                (fun x => { x with conn := none })) t2 on.id := prep_sameJunctions (rzlePrep_spec _ _ _ _) ht1 hj1
               (fun n1 hn1 hnid => by
                 obtain ⟨n, hn, rfl⟩ := (hnodes n1).mp hn1
                 by_cases hidn : n.id = on.id
